@@ -14,10 +14,16 @@ Case gen_C08(uint64_t seed, long run, const GenCfg &g, const char *inflight) {
     TaskPlan t; t.dtype = gen_dtype(r); bool cplx = (t.dtype == 'c' || t.dtype == 'z');
     gen_tuning(r, t.tuning, true);
     if (r.chance(0.3)) t.tuning[5] = r.range(4, 12);
+    // "big" cases: more fill-in and a fill estimate of 1-2, so that many growth requests of every kind (LUSUP, UCOL+USUB, LSUB)
+    // are in flight; their failing positions are enumerated completely, their workspace lengths sampled around the boundaries
+    bool big = r.chance(0.4);
+    if (big) t.tuning[5] = r.range(1, 2);
     double u = r.unit();
     std::string kind = u < 0.45 ? "gssvx" : u < 0.65 ? "pipe" : u < 0.88 ? "gsisx" : "ipipe";
     int nmax = g.thorough ? (r.chance(0.15) ? 60 : 30) : 18;
-    Mat A = gen_matrix(r, 1, nmax, kind == "pipe", cplx);
+    if (big) nmax = g.thorough ? 90 : 44;
+    Mat A = gen_matrix(r, big ? 16 : 1, nmax, kind == "pipe", cplx);
+    c.prior_plans = big ? 1 : 0;
     t.mats.push_back(A);
     Op nw; nw.kind = "new"; nw.mat = 0; nw.storage = ((kind == "gssvx" || kind == "gsisx") && r.chance(0.15)) ? 1 : 0;
     Op mo; mo.kind = kind; gen_options(r, mo, A.m == A.n, cplx); mo.fact = DOFACT;
@@ -130,14 +136,15 @@ RunOutcome exec_C08(const Case &c) {
             if (lmin < 0) { out.stats["probe_no_sufficient_length_found"] += 1; continue; }
             long top = lmin + lmin / 4 + 64;
             long limit = 48 * 1024;
-            if (top <= limit) {
+            if (top <= limit && c.prior_plans == 0) {
                 for (long lw = 4; lw <= top; lw += 4) { e.lwork = lw; c08_one(x, e, "workspace-length"); swept++; }
                 // lengths that are not multiples of 4 around the boundary
                 for (long lw = std::max(1L, lmin - 9); lw <= lmin + 9; lw++) if (lw % 4) { e.lwork = lw; c08_one(x, e, "workspace-length"); swept++; }
                 out.stats["cases_swept_exhaustively"] += 0.5;
             } else {
                 Rng sr(mix3(c.sched_seed, 88, (uint64_t)align));
-                for (int k = 0; k < 2048; k++) {
+                int nsamp = c.prior_plans ? 384 : 2048;
+                for (int k = 0; k < nsamp; k++) {
                     long lw = sr.chance(0.5) ? (long)(lmin - 2048 + (long)sr.below(4096)) : (long)sr.below((uint64_t)top);
                     if (lw < 1) lw = 4; if (sr.chance(0.9)) lw = lw / 4 * 4; if (lw < 1) lw = 4;
                     e.lwork = lw; c08_one(x, e, "workspace-length"); swept++;
@@ -174,6 +181,23 @@ query:
         // a query retains no allocation
         for (auto &b : pr.leaks) if (b.op == x.mi) { out.violations.push_back({"query-retains", std::string("size query left a block allocated in ") + (b.func ? b.func : "?"), "C08|query-retains|" + mo.kind + "|" + (b.func ? b.func : "?")}); }
         if (!r.violations.empty() || !pr.leaks.empty()) out.query_failed = true;
+    }
+    // ---- 3b. expert driver: size query while an ordering / factors are being re-used (Fact = SamePattern, SamePattern_SameRowPerm) ----
+    if (mo.kind == "gssvx") {
+        for (int fm = SamePattern; fm <= SamePattern_SameRowPerm; fm++) {
+            TaskPlan q = plan; Op f0 = mo; f0.lwork = 0; f0.faults.clear();
+            Op qq = mo; qq.lwork = -1; qq.fact = fm; qq.faults.clear();
+            Op ds; ds.kind = "destroy";
+            q.ops = {plan.ops[0], f0, qq, ds};
+            ExecCfg cf = c08_cfg(x.budget); cf.chk_query_pure = true;
+            PlanRun pr = run_plan_single(q, cf);
+            x.h.u64(pr.evhash);
+            out.stats["enumerated_runs"] += 1; out.stats["fault_size_query"] += 1; out.stats["probe_query_during_reuse"] += 1;
+            const OpResult &r = pr.trace[2];
+            for (auto &v : r.violations) { size_t bar = v.find('|'); out.violations.push_back({v.substr(0, bar), "size query with Fact=" + std::to_string(fm) + ": " + v.substr(bar + 1), "C08|" + v.substr(0, bar) + "|" + mo.kind + "|query-reuse|" + v.substr(bar + 1, v.find('@') == std::string::npos ? std::string::npos : v.find('@') - bar - 1)}); }
+            for (auto &b : pr.leaks) if (b.op == 2) { out.violations.push_back({"query-retains", "size query with Fact=" + std::to_string(fm) + " left a block allocated in " + (b.func ? b.func : "?"), "C08|query-retains|" + mo.kind + "|reuse|" + (b.func ? b.func : "?")}); }
+            if (!r.violations.empty()) out.query_failed = true;
+        }
     }
     out.hash = x.h.h;
     out.nontrivial = out.stats["faults_fired_distinct"] > 0;
